@@ -1150,6 +1150,25 @@ class Generator:
         errors=[(fn, msg)])"""
         lines = read_template(template_path)
         segs = parse_template(lines)
+        assumed = []
+        for ln in lines:
+            m = re.match(r'^\s*//@assumed\s+(\S+)\s+(\S+(?:\s+for\s+\S+)?)\s*\[([^\]]*)\]\s*(?:mirror=(\S+))?', ln)
+            if m:
+                rel, target, tags, mirror = m.group(1), m.group(2), m.group(3), m.group(4)
+                ent = {'file': rel, 'fn': target, 'tags': [t for t in re.split(r'[ ,]+', tags) if t], 'mirror': mirror, 'sha256': None, 'error': None}
+                try:
+                    sf = self.sf(rel)
+                    ty, tr, name = parse_target(target)
+                    it = sf.find_fn(ty, name, tr)
+                    if it is None:
+                        ent['error'] = 'function not found'
+                    else:
+                        # token text only: comments and layout do not count as a change
+                        txt = ' '.join(t_.text for t_ in sf.toks[it.fn_kw:it.body_close + 1])
+                        ent['sha256'] = hashlib.sha256(txt.encode()).hexdigest()
+                except (GenError, LexError) as e:
+                    ent['error'] = str(e)
+                assumed.append(ent)
         out = []
         clause_at = {}
         fn_ranges = []
@@ -1296,7 +1315,7 @@ class Generator:
                 tags_of[c.cid] = (c.tags or spec.default, spec.qname, c.kind, c.text)
         explicit_tagged = set(c.cid for spec in specs for c in spec.clauses if c.tags)
         return {'text': text, 'records': records, 'clause_at': clause_at, 'fn_ranges': fn_ranges,
-                'errors': errors, 'tags_of': tags_of, 'specs': specs, 'explicit_tagged': explicit_tagged}
+                'errors': errors, 'tags_of': tags_of, 'specs': specs, 'explicit_tagged': explicit_tagged, 'assumed': assumed}
 
     @staticmethod
     def quarantined(flines):
